@@ -200,6 +200,7 @@ def run(ctx):
             if w["name"] in ("verify", "verify_rln_proof", "verify_with_roots", "recover_id_secret"):
                 sub4 = _Ctx4(ctx.pid, ctx.tier)
                 c11.check_wrapper(sub4, fb, w, cfg)
+                c11.check_wrapper_panics(sub4, fb, w, cfg)
                 k += 1
                 for r in sub4.results:
                     (ctx.ok if r.status == "ok" else ctx.fail)("R13-4", r.instance, r.reason, r.loc)
